@@ -21,9 +21,12 @@ int list_count(List l) { RELAY_STUB_ABORT("list_count"); return 0; }
 ListIterator list_iterator_create(List l) { RELAY_STUB_ABORT("list_iterator_create"); return NULL; }
 void list_iterator_destroy(ListIterator i) { RELAY_STUB_ABORT("list_iterator_destroy"); }
 void *list_next(ListIterator i) { RELAY_STUB_ABORT("list_next"); return NULL; }
-int pcp_client(struct pcp_client *cli) { RELAY_STUB_ABORT("pcp_client"); return 0; }
+/* pcp_client / pcp_server: the relay harness' op `rcperr` drives the real _parallel_copy(); the copy protocol
+ * itself (properties C11/C12) is replaced by its return value */
+static int relay_pcp_rv_set, relay_pcp_rv;
+int pcp_client(struct pcp_client *cli) { if (relay_pcp_rv_set) return relay_pcp_rv; RELAY_STUB_ABORT("pcp_client"); return 0; }
 List pcp_expand_dirs(List l) { RELAY_STUB_ABORT("pcp_expand_dirs"); return NULL; }
-int pcp_server(struct pcp_server *s) { RELAY_STUB_ABORT("pcp_server"); return 0; }
+int pcp_server(struct pcp_server *s) { if (relay_pcp_rv_set) return relay_pcp_rv; RELAY_STUB_ABORT("pcp_server"); return 0; }
 pers_t pdsh_personality(void) { RELAY_STUB_ABORT("pdsh_personality"); return DSH; }
 int rcmd_connect(struct rcmd_info *rcmd, char *host, char *addr, char *locuser, char *remuser,
                  char *cmd, int nodeid, bool err) { RELAY_STUB_ABORT("rcmd_connect"); return -1; }
